@@ -172,3 +172,47 @@ Print Assumptions C04_session_applied_iff.
 Print Assumptions C04_session_applied_approved.
 Print Assumptions C04_session_category_all_files.
 Print Assumptions C04_session_order_irrelevant.
+
+(* changes INSIDE a node that another change removes (an inner snapshot in an element / entry the outer snapshot deletes or replaces; Model/SessionNest.v):
+   nothing is written without approval; pending changes of categories that are not approved have no influence whatever on what is written - so a change whose
+   surroundings only a rejected category would remove is written like any other one, and it is dropped exactly when a change that IS applied removes its
+   surroundings; without nesting the model is the one of Model/Session.v *)
+From V Require Model.SessionNest Proofs.SessionNestProofs.
+Theorem C04_nest_written_approved :
+  forall (cf : Session.sconf) (pending : list SessionNest.nchange) (ch : SessionNest.nchange),
+  In ch (SessionNest.writtenN cf pending) ->
+  In ch pending /\ Session.shown cf (SessionNest.n_cat ch) = true /\ Session.approve cf (SessionNest.n_cat ch) = true.
+Proof. exact SessionNestProofs.nest_written_approved. Qed.
+Theorem C04_nest_rejected_irrelevant :
+  forall (cf : Session.sconf) (pending : list SessionNest.nchange),
+  SessionNest.writtenN cf pending = SessionNest.writtenN cf (filter (fun ch => Session.approve cf (SessionNest.n_cat ch)) pending).
+Proof. exact SessionNestProofs.nest_rejected_irrelevant. Qed.
+Theorem C04_nest_survives_rejected_parent :
+  forall (cf : Session.sconf) (pending : list SessionNest.nchange) (ch : SessionNest.nchange),
+  In ch (fst (SessionNest.sessionN cf pending)) ->
+  (forall (id : nat) (r : SessionNest.nchange), In id (SessionNest.n_encl ch) -> In r pending -> SessionNest.n_id r = id ->
+     Session.approve cf (SessionNest.n_cat r) = false) ->
+  In ch (SessionNest.writtenN cf pending).
+Proof. exact SessionNestProofs.nest_survives_rejected_parent. Qed.
+Theorem C04_nest_dropped_with_used_parent :
+  forall (cf : Session.sconf) (pending : list SessionNest.nchange) (ch r : SessionNest.nchange),
+  In r (fst (SessionNest.sessionN cf pending)) -> SessionNest.n_removes r = true -> In (SessionNest.n_id r) (SessionNest.n_encl ch) ->
+  ~ In ch (SessionNest.writtenN cf pending).
+Proof. exact SessionNestProofs.nest_dropped_with_used_parent. Qed.
+Theorem C04_sessionN_flat :
+  forall (cf : Session.sconf) (pending : list SessionNest.nchange), SessionNestProofs.unnested pending ->
+  map SessionNestProofs.flat (SessionNest.writtenN cf pending) = fst (Session.session cf (map SessionNestProofs.flat pending)) /\
+  snd (SessionNest.sessionN cf pending) = snd (Session.session cf (map SessionNestProofs.flat pending)).
+Proof. exact SessionNestProofs.sessionN_flat. Qed.
+Theorem C04_nest_example :
+  map SessionNest.n_id (SessionNest.writtenN (SessionNestProofs.cf_of Session.all_cats [SnapOps.Update]) SessionNestProofs.ex_pending) = [1; 2]%nat /\
+  map SessionNest.n_id (SessionNest.writtenN (SessionNestProofs.cf_of Session.all_cats [SnapOps.Fix; SnapOps.Update]) SessionNestProofs.ex_pending) = [0; 2]%nat /\
+  map SessionNest.n_id (SessionNest.writtenN (SessionNestProofs.cf_of [SnapOps.Update] [SnapOps.Update]) SessionNestProofs.ex_pending) = [1; 2]%nat /\
+  snd (SessionNest.sessionN (SessionNestProofs.cf_of Session.all_cats [SnapOps.Update]) SessionNestProofs.ex_pending) = [SnapOps.Fix; SnapOps.Update].
+Proof. exact SessionNestProofs.nest_example. Qed.
+Print Assumptions C04_nest_written_approved.
+Print Assumptions C04_nest_rejected_irrelevant.
+Print Assumptions C04_nest_survives_rejected_parent.
+Print Assumptions C04_nest_dropped_with_used_parent.
+Print Assumptions C04_sessionN_flat.
+Print Assumptions C04_nest_example.
